@@ -29,9 +29,31 @@ def gen_cases(seed, tier):
     n = 400 if tier == 'quick' else 6000
     for i in range(n):
         ops.add(rng.word())
+    # operands with prescribed leading quotients in the Euclidean descent of (p, a): p/a = [q1; q2, q3, ...] with the q's
+    # at the boundaries of a 32-bit / 64-bit quotient (the extended-Euclid update multiplies by the quotient)
+    from fractions import Fraction
+    Q = [1, 2, 3, 0xFFFF, 0x10000, 0x7FFFFFFF, 0x80000000, 0xFFFFFFFE, 0xFFFFFFFF, 0x100000000, 0x100000001]
+    k = 0
+    for q1 in Q:
+        for q2 in Q:
+            for q3 in (Q if tier != 'quick' else [1, 0xFFFFFFFF, 0x100000000, 3]):
+                k += 1
+                if tier == 'quick' and k % 3:
+                    continue
+                x = Fraction(q1) + 1 / (Fraction(q2) + Fraction(1, q3))
+                a = int(Fraction(P) / x)
+                for d in (0, 1, -1):
+                    if 0 < a + d < P:
+                        ops.add(a + d)
+    for kk in list(range(1, 40)) + [255, 256, 257, 65535, 65536, 65537, 2**31, 2**32 - 1, 2**32, 2**32 + 1, 2**33]:
+        ops.add(P // kk); ops.add(P // kk + 1); ops.add((P - 1) // kk * 1)
     ops = sorted(ops)
     cs = []
     # zero-class operands as the very FIRST inversions of the process (a refusal must not depend on earlier calls)
+    # concurrent FIRST use: plain threads of a fresh process invert / divide at the same time (anything built lazily on
+    # first use must be safe to use from the start)
+    for i in range(6 if tier == 'quick' else 40):
+        cs.append(('conc', 16, rng.next() & 0xFFFFFFFF))
     cs.append(('inv', 0, 0)); cs.append(('inv', P, 0)); cs.append(('div', 5, 0)); cs.append(('div', 5, P))
     for x in ops:
         cs.append(('inv', x, 0))
@@ -61,7 +83,9 @@ def gen_cases(seed, tier):
 def write_cases(path, cases):
     with open(path, 'w') as f:
         for c in cases:
-            if c[0] == 'chain':
+            if c[0] == 'conc':
+                f.write('conc %d 0x%x\n' % (c[1], c[2]))
+            elif c[0] == 'chain':
                 f.write('chain %s %d 0x%x 0x%x\n' % (c[3], c[4], c[1], c[2]))
             else:
                 f.write('%s 0x%x 0x%x\n' % tuple(c[:3]))
